@@ -124,7 +124,7 @@ Notation value := (@value F).
 Notation store := (@store F).
 Notation exec := (@exec F OF feq stop).
 
-Ltac ev := cbn [LoopIR.exec LoopIR.eval eval_opt get set nth bind try asZ asArr asF ok err fst snd arith arithZ fop compare cmpZ eqne truthy
+Ltac ev := cbn [LoopIR.exec LoopIR.eval eval_opt get set nth bind try asZ asArr asF ok err fst snd arith arithZ fop compare cmpF cmpZ eqne truthy
                 eval_list Z.opp].
 
 Lemma ofZ_1 : @ofZ F OF 1 = 1.
